@@ -630,6 +630,9 @@ def run(ck):
     exe = vlib.build_harness("c10_elem_h", ["c10_elem_h.c"])
     res = vlib.coq_check_properties("C10")
     broken = ck.proof_result(res, CHECKER)
+    # variable-size sections: Properties_C10b.v (checks/C10b.py, notes/C10b.md), same model, same verdict logic
+    from checks import C10b
+    broken = broken + C10b.run_extra(ck)
     forb = vlib.coq_forbidden_scan("C10")
     ck.extra["forbidden_tokens"] = forb
     vlib.build_modelrun("c10")
